@@ -34,6 +34,16 @@ FUNCTIONS = [
     ("src/ext.rs", "is_redirect_retaining_status", "gen_is_retaining", "N"),
     ("src/body.rs", "calculate_max_input", "gen_calculate_max_input", None),
     ("src/body.rs", "max_chunk_fit", "gen_max_chunk_fit", None),
+    # The decision table of BodyReader::for_response. What it gets from the header parsing is abstracted into parameters
+    # (the hand-written model has header_defined as a separate function): the framing the headers define, and whether a
+    # content-length / transfer-encoding header is present at all.
+    ("src/body.rs", "for_response", "gen_for_response", None,
+     {"subst": [(r"Self::header_defined\(http10, header_lookup\)\?", "hd_param"),
+                (r'header_lookup\("content-length"\)\s*\.is_some\(\)', "cl_present"),
+                (r'header_lookup\("transfer-encoding"\)\s*\.is_some\(\)', "te_present")],
+      "params": [("http10", "bool"), ("method", "method"), ("status_code", "N"), ("hd_param", "reader"),
+                 ("cl_present", "bool"), ("te_present", "bool")],
+      "ret": "reader", "unwrap_ok": True}),
 ]
 
 STATUS = {"CONTINUE": 100, "SWITCHING_PROTOCOLS": 101, "OK": 200, "NO_CONTENT": 204, "MULTIPLE_CHOICES": 300, "MOVED_PERMANENTLY": 301,
@@ -236,6 +246,8 @@ class Parser(object):
                     return (VERSIONS[member], "version")
                 if name == "StatusCode" and member in STATUS:
                     return (str(STATUS[member]), "N")
+                if name == "Self" and member in ("NoBody", "CloseDelimited"):
+                    return ({"NoBody": "RNoBody", "CloseDelimited": "RClose"}[member], "reader")
                 if name == "Error":
                     if self.peek() == ("op", "("):
                         self.skip_parens()
@@ -249,6 +261,8 @@ class Parser(object):
                 self.expect("(")
                 inner = ("tt", "unit") if self.peek() == ("op", ")") else self.expr()
                 self.expect(")")
+                if name == "Ok" and getattr(self, "unwrap_ok", False):
+                    return inner
                 return ("(%s %s)" % (name, inner[0]), "res")
             if re.fullmatch(r"[A-Z][A-Z0-9_]*", name):
                 return (str(const_value(name, self.consts)), "N")     # constants are folded to their numeric value
@@ -447,12 +461,17 @@ class Parser(object):
         return ("let '%s := %s %d%%nat %s in\n  %s" % (tup, lname, fuel, " ".join(params + state), rest[0]), rest[1])
 
 
-def translate_fn(text, rust_name, coq_name, self_ty, consts, known):
+def translate_fn(text, rust_name, coq_name, self_ty, consts, known, opts=None):
+    opts = opts or {}
     sig, body = extract_fn(text, rust_name)
+    for rx, rep in opts.get("subst", []):
+        body, n = re.subn(rx, rep, body)
+        if n == 0:
+            raise Unsupported("expected source pattern not found: %s" % rx)
     m = re.search(r"\((.*)\)\s*(?:->\s*(.*))?$", sig.strip(), flags=re.S)
     params = []
     ptypes = {}
-    for part in [p.strip() for p in m.group(1).split(",") if p.strip()]:
+    for part in ([] if "params" in opts else [p.strip() for p in m.group(1).split(",") if p.strip()]):
         if part in ("&self", "self", "&mut self"):
             params.append(("self", self_ty))
             continue
@@ -463,9 +482,14 @@ def translate_fn(text, rust_name, coq_name, self_ty, consts, known):
         params.append((pn, TYPES[pt]))
     ret = (m.group(2) or "()").strip()
     ret_ty = {"bool": "bool", "usize": "N", "u64": "N", "Result<(), Error>": "res unit"}.get(ret)
+    if "params" in opts:
+        params = list(opts["params"])
+        ret_ty = opts["ret"]
     if ret_ty is None:
         raise Unsupported("return type %s" % ret)
+    body = re.sub(r"\((\d+)\.\.=(\d+)\)\s*\.contains\(&(\w+)\)", r"(\1 <= \3 && \3 <= \2)", body)
     p = Parser(tokenize(body), consts, self_ty, known)
+    p.unwrap_ok = bool(opts.get("unwrap_ok"))
     p.vars = dict(params)
     p.params = [n for n, _ in params]
     p.assigned = []
@@ -496,12 +520,14 @@ def regenerate(repo, out_path):
     known = {}
     done = []
     failed = {}
-    for rel, rust_name, coq_name, self_ty in FUNCTIONS:
+    for entry in FUNCTIONS:
+        rel, rust_name, coq_name, self_ty = entry[:4]
+        opts = entry[4] if len(entry) > 4 else None
         try:
             text = open(os.path.join(repo, rel)).read()
-            code, ret_ty = translate_fn(text, rust_name, coq_name, self_ty, constants_of(text), known)
+            code, ret_ty = translate_fn(text, rust_name, coq_name, self_ty, constants_of(text), known, opts)
             chunks.append("(* %s :: fn %s *)\n%s\n" % (rel, rust_name, code))
-            known[rust_name] = (coq_name, {"bool": "bool", "N": "N", "res unit": "res"}[ret_ty])
+            known[rust_name] = (coq_name, {"bool": "bool", "N": "N", "res unit": "res"}.get(ret_ty, ret_ty))
             done.append(rust_name)
         except (Unsupported, OSError, ValueError, KeyError, IndexError, AttributeError) as e:
             failed[rust_name] = "%s: %s" % (type(e).__name__, e)
